@@ -228,6 +228,14 @@ def run(ck):
             if numpy.abs(d2 - c * c * data).max() > stol * c * c * numpy.abs(data).max():
                 ck.fail("dipole-scaling", "spectrum does not scale with the square of a common dipole factor", inp,
                         float(numpy.abs(d2 - c * c * data).max()))
+            # "a common dipole factor" has no preferred size: a very small and a very large one as well
+            if nmol >= 2:
+                for c in (1.0e-5, 1.0e3):
+                    _, spx = spectrum(make(nmol, energies, dips, poss, couplings, reorgs, cortimes, scale=c))
+                    dx = numpy.array(spx.data)
+                    if numpy.abs(dx - c * c * data).max() > 1e-9 * c * c * numpy.abs(data).max():
+                        ck.fail("dipole-scaling:factor-%g" % c, "spectrum does not scale with the square of a common dipole factor (%g)" % c,
+                                dict(inp, factor=c), float(numpy.abs(dx - c * c * data).max() / (c * c * numpy.abs(data).max())))
             Q = rot()
             _, sp3 = spectrum(make(nmol, energies, dips, poss, couplings, reorgs, cortimes, Q=Q))
             if numpy.abs(numpy.array(sp3.data) - data).max() > 1e-9 * numpy.abs(data).max():
